@@ -821,3 +821,19 @@ FIXED.append(
         "start": "R",
     }
 )
+
+
+FIXED.append(
+    {  # a size-refined list whose ELEMENTS are lists of refined values (and a union with a refined member as element): under
+        # string annotations every one of these compound element types is a new object each time it is resolved
+        "name": "fx_list_of_refined_lists",
+        "abstracts": [{"name": "R", "parent": None, "style": "abc"}],
+        "prods": [
+            {"name": "Leaf", "parent": "R", "fields": []},
+            {"name": "Rows", "parent": "R", "fields": [["rows", ["ann", ["list", ["list", ["ann", ["str"], ["VarRange", ["x", "y"]]]]], ["LSBWLO", 1, 2]]]]},
+            {"name": "Mixed", "parent": "R", "fields": [["xs", ["ann", ["list", ["union", ["ref", "Leaf"], ["ann", ["int"], ["IntRange", 0, 2]]]], ["ListSizeBetween", 1, 2]]]]},
+            {"name": "Two", "parent": "R", "fields": [["l", ["ref", "R"]], ["r", ["ref", "R"]]]},
+        ],
+        "start": "R",
+    }
+)
